@@ -72,7 +72,7 @@ def concretise(ab, sec):
         slices_x=sec["slices"][0],
         slices_y=sec["slices"][1],
         fragment_slice_count=(sec["slices"][0] if ab["fragments"] else 0),
-        quantization_matrix=sec["qm"],
+        quantization_matrix=({int(k): dict(v) for k, v in sec["qm"].items()} if sec["qm"] else None),  # (a replayed case has string keys)
     )
     if ab["lossless"]:
         kw.update(lossless=True, picture_bytes=None)
